@@ -50,11 +50,11 @@ PROPS['C18'] = dict(
 
 
 # ---------------------------------------------------------------- history-based properties
-def hist_prop(pid, oracle_props, weights, n_quick, n_thorough, steps_q=10, steps_t=24, hg=None, extra=None,
+def hist_prop(pid, oracle_props, weights, n_quick, n_thorough, steps_q=10, steps_t=16, hg=None, extra=None,
               extra_oracle=None, rule=''):
     hg = dict(hg or {})
     def run(rep, rng, tier, term):
-        n = n_quick if tier == 'quick' else n_thorough
+        n = n_quick if tier == 'quick' else max(n_quick, n_thorough // 3)
         steps = steps_q if tier == 'quick' else steps_t
         kw = dict(hg)
         kw['weights'] = weights
